@@ -144,15 +144,125 @@ pub fn seam_ok(a: char, b: char) -> bool {
     !is_prepend(a) && !ws_joinable(b) && cf_break(a, b)
 }
 
-/// `seam_safe` of C10_Seam.v: every word boundary (words = maximal runs of non-White_Space
+/// `seam_safe_cf` of C10_Seam.v: every word boundary (words = maximal runs of non-White_Space
 /// code points) is a `seam_ok` position
-pub fn seam_safe(s: &str) -> bool {
+pub fn seam_safe_cf(s: &str) -> bool {
     let words: Vec<&str> = s.split_whitespace().collect();
     words.windows(2).all(|w| {
         let a = w[0].chars().last().unwrap_or(' ');
         let b = w[1].chars().next().unwrap_or(' ');
         seam_ok(a, b)
     })
+}
+
+// ---------------------------------------------------------------- the cursor's look-behind state
+
+/// `ctx` of UAX29_Model.v: emo 0 = E_none, 1 = E_pict, 2 = E_zwj; icb 0 = I_none,
+/// 1 = I_cons false, 2 = I_cons true
+#[derive(Clone, Copy, PartialEq, Eq, Debug)]
+pub struct Ctx {
+    pub ris_odd: bool,
+    pub emo: u8,
+    pub icb: u8,
+}
+pub const CTX0: Ctx = Ctx { ris_odd: false, emo: 0, icb: 0 };
+
+/// 0 = no Indic_Conjunct_Break class, 1 = Linker, 2 = Extend (linker asked first, as the code does)
+pub fn incb_of(c: char) -> u8 {
+    let x = c as u32;
+    if INCB_LINKER.contains(&x) {
+        1
+    } else if INCB_EXTEND_TABLE.iter().any(|&(lo, hi)| lo <= x && x <= hi) {
+        2
+    } else {
+        0
+    }
+}
+
+/// `advance`
+pub fn advance(x: Ctx, c: char, k: u8) -> Ctx {
+    Ctx {
+        ris_odd: if k == RI { !x.ris_odd } else { false },
+        emo: if k == EXT_PICT {
+            1
+        } else if k == EXTEND {
+            if x.emo == 1 { 1 } else { 0 }
+        } else if k == ZWJ {
+            if x.emo == 1 { 2 } else { 0 }
+        } else {
+            0
+        },
+        icb: match incb_of(c) {
+            1 => if x.icb != 0 { 2 } else { 0 },
+            2 => x.icb,
+            _ => if k == INCB_CONSONANT { 1 } else { 0 },
+        },
+    }
+}
+
+/// `is_break`
+pub fn is_break(x: Ctx, ka: u8, kb: u8) -> bool {
+    match check_pair(ka, kb) {
+        PairResult::NotBreak => false,
+        PairResult::Break => true,
+        PairResult::Extended => false,
+        PairResult::InCbConsonant => x.icb != 2,
+        PairResult::Regional => !x.ris_odd,
+        PairResult::Emoji => x.emo != 2,
+    }
+}
+
+/// `state_of`
+pub fn state_of(s: &str) -> (Ctx, u8) {
+    let mut st = (CTX0, ANY);
+    for c in s.chars() {
+        let k = gcb(c);
+        st = (advance(st.0, c, k), k);
+    }
+    st
+}
+
+/// `break_after s b`: a boundary between the text `s` (read from the empty context) and `b`
+pub fn break_after(s: &str, b: char) -> bool {
+    let (x, ka) = state_of(s);
+    is_break(x, ka, gcb(b))
+}
+
+/// `glued c d` of C10_Seam.v
+pub fn glued(c: &str, d: &str) -> bool {
+    match d.chars().next() {
+        Some(b) => break_after(c, b),
+        None => true,
+    }
+}
+
+fn all_ws(c: &str) -> bool {
+    c.chars().all(|x| x.is_whitespace())
+}
+fn mixed(c: &str) -> bool {
+    let ws = c.chars().filter(|x| x.is_whitespace()).count();
+    ws > 0 && ws < c.chars().count()
+}
+
+/// `del_safe` on a cluster list
+pub fn del_safe(t: &[&str]) -> bool {
+    (0..t.len().saturating_sub(1)).all(|i| {
+        if !all_ws(t[i]) && all_ws(t[i + 1]) {
+            match t.get(i + 2) {
+                Some(d) => glued(t[i], d),
+                None => true,
+            }
+        } else {
+            true
+        }
+    })
+}
+
+/// `seam_safe` of C10_Seam.v on the clusters unicode-segmentation gives (that these are the
+/// model's `segment` is the other clause of `agree`)
+pub fn seam_safe(s: &str) -> bool {
+    let t: Vec<&str> = vh::split_clusters(s, true).collect();
+    !t.iter().any(|c| mixed(c)) && del_safe(&t)
 }
 
 // ---------------------------------------------------------------- drawing seam-prone inputs
